@@ -24,7 +24,7 @@ ASSUMPTIONS = [
 ]
 MONITORS = ("lost-bytes accounting: {path: bytes} of the workspace before vs after against the set of intact cache objects; audit-hook trail of "
             "removals as witness; shadow model of the link table for clean-up")
-REQUIRED_COUNTERS = ["own_data_under_two_linked_names", "workspaces_with_stray_ignore_file", "second_attempts_after_refusal", "single_file_targets", "inode_only_replacements", "workspaces_with_dangling_symlink", "cleanups_after_checkout", "large_file_directories", "dir_links_with_duplicate_basenames", "damaged_cache_objects", "symlinked_link_records", "checkouts", "uncached_files_in_workspace", "prompt_errors", "declining_prompt_calls", "normal_returns", "kind_swap_cases",
+REQUIRED_COUNTERS = ["crlf_variants_of_tracked_text", "legacy_scans_through_the_same_state", "file_where_a_tree_goes_cases", "own_data_under_two_linked_names", "workspaces_with_stray_ignore_file", "second_attempts_after_refusal", "single_file_targets", "inode_only_replacements", "workspaces_with_dangling_symlink", "cleanups_after_checkout", "large_file_directories", "dir_links_with_duplicate_basenames", "damaged_cache_objects", "symlinked_link_records", "checkouts", "uncached_files_in_workspace", "prompt_errors", "declining_prompt_calls", "normal_returns", "kind_swap_cases",
                      "link_histories", "unused_link_queries", "remove_links_calls", "relink_cases", "store/local", "store/base",
                      "link/copy", "link/hardlink", "link/symlink"]
 
@@ -53,7 +53,7 @@ def run_shard(ctx):
             croot = os.path.join(d, "cache")
             state = env.mk_state(d, os.path.join(d, "tmp")) if use_state else None
             odb = env.odb_of_class(cls, croot, state=state, type=[link])
-            pool = [gen.small_content(rng) for _ in range(3)] + [b""]
+            pool = [gen.small_content(rng) for _ in range(3)] + [b"", b"first line\nsecond line\n", b"a\nb\n"]
             A, _e = gen.tree(rng, depth=rng.randrange(0, 3), fanout=3, pool_=pool, dup=0.5, odd=0.25, min_files=1, empty_dirs=False)
             B, _e2, _ops = gen.mutate_tree(rng, A, (), pool, kind_swaps=rng.random() < 0.4)
             bigcase = rng.random() < 0.05
@@ -74,6 +74,10 @@ def run_shard(ctx):
                 checkout(ws, fs, load(odb, (aobj if start == "A" else bobj).hash_info), odb, force=True, state=state)
             else:
                 os.makedirs(ws)
+            if start != "empty" and walk_files(ws) != model:
+                # the start state is only a means here (C02/C10 judge that checkout): put the workspace into the modelled state by hand
+                gen.write_tree(ws, {k_: v_ for k_, v_ in model.items() if walk_files(ws).get(k_) != v_})
+                res.count("start_states_completed_by_hand")
             if bigcase and start != "empty" and os.path.isdir(os.path.join(ws, "bigdir")):
                 for j, c in enumerate(bigs[1:]):
                     with open(os.path.join(ws, "bigdir", f"user{j}.bin"), "wb") as f:
@@ -134,6 +138,24 @@ def run_shard(ctx):
                     model[ks[0]] = model[ks[1]] = own
                     ops = [*ops, f"own-data-under-two-names/{style}"]
                     res.count("own_data_under_two_linked_names")
+            # the user turned a tracked LF text file into its CRLF form (uncached bytes), and a legacy (text-normalising) operation has
+            # looked at the workspace through the same hash state: its rows must not make the CRLF copy pass for the cached LF object
+            if use_state and start != "empty" and rng.random() < 0.15:
+                from dvc_data.hashfile.build import build as _build
+
+                for k_ in sorted(model):
+                    v_ = model[k_]
+                    p_ = os.path.join(ws, *k_)
+                    if v_ and b"\n" in v_ and b"\r" not in v_ and b"\0" not in v_ and os.path.isfile(p_) and not os.path.islink(p_) and all(32 <= c_ < 127 or c_ in (9, 10) for c_ in v_[:512]):
+                        crlf_ = v_.replace(b"\n", b"\r\n")
+                        gen.replace_by_rename(p_, crlf_)
+                        model[k_] = crlf_
+                        ops = [*ops, "lf->crlf"]
+                        res.count("crlf_variants_of_tracked_text")
+                        break
+                legacy_ = env.odb_of_class("local", os.path.join(d, "legacy-cache"), state=state, hash_name="md5-dos2unix")
+                _build(legacy_, ws, fs, "md5-dos2unix", dry_run=True)
+                res.count("legacy_scans_through_the_same_state")
             # a stray .dvcignore inside the target directory (next to an edited file when there is one)
             stray = None
             if start != "empty" and rng.random() < 0.1:
@@ -352,6 +374,50 @@ def run_shard(ctx):
             env.reset_staging()
             ctx.drop(d)
 
+        def file_where_tree_goes(case=case, rng=rng):
+            """the checkout location is an uncached file of the user's, the target is a directory object"""
+            d = ctx.fresh("g")
+            cls = rng.choice(["local", "local", "base"])
+            link = rng.choice(["copy", "hardlink", "symlink"])
+            state = env.mk_state(d, os.path.join(d, "tmp")) if rng.random() < 0.5 else None
+            odb = env.odb_of_class(cls, os.path.join(d, "cache"), state=state, type=[link])
+            T, _e = gen.tree(rng, depth=rng.randrange(0, 2), fanout=3, odd=0.2, min_files=1, empty_dirs=False)
+            tobj = colab.populate(odb, d, T, "tsrc")
+            ws = os.path.join(d, "ws", "out")
+            os.makedirs(os.path.dirname(ws))
+            own = gen.small_content(rng) + b"user-own-file"
+            with open(ws, "wb") as f:
+                f.write(own)
+            res.evaluated()
+            res.count("checkouts")
+            res.count("file_where_a_tree_goes_cases")
+            res.count(f"store/{cls}")
+            res.count(f"link/{link}")
+            res.count("uncached_files_in_workspace")
+            res.nontrivial("file-where-tree", sorted(T.items()), own, cls, link)
+            outcome = "returned"
+            try:
+                checkout(ws, fs, load(odb, tobj.hash_info), odb, force=False, relink=rng.random() < 0.3, state=state,
+                         prompt=(lambda m: res.count("declining_prompt_calls") or False) if rng.random() < 0.5 else None)
+                res.count("normal_returns")
+            except PromptError:
+                outcome = "PromptError"
+                res.count("prompt_errors")
+            except (CheckoutError, LinkError, OSError) as e:
+                outcome = type(e).__name__  # loud
+            cfg = {"file_where_tree_goes": True, "store": cls, "link": link, "outcome": outcome}
+            res.sample(cfg)
+            if not os.path.isfile(ws) or os.path.islink(ws) or file_bytes(ws) != own:
+                res.violation(f"uncached-user-file-removed/file-where-a-tree-goes/{outcome}",
+                              "the checkout location was a file holding bytes that are not in the cache; a non-forced checkout of a directory object destroyed it",
+                              case=case, detail=cfg)
+            elif outcome == "returned":
+                res.violation("uncached-file-in-the-way-not-refused/file-where-a-tree-goes", "checkout returned normally", case=case, detail=cfg)
+            if state is not None:
+                state.close()
+            env.reset_staging()
+            ctx.drop(d)
+
         def links(case=case, rng=rng):
             d = ctx.fresh("l")
             root = os.path.join(d, "repo")
@@ -492,6 +558,8 @@ def run_shard(ctx):
 
         if case % 3 == 2:
             ctx.guard(case, links)
+        elif case % 24 == 7:
+            ctx.guard(case, file_where_tree_goes)
         elif case % 6 == 1:
             ctx.guard(case, co_single)
         else:
